@@ -348,6 +348,10 @@ pub fn raw_reader(arch: &std::path::Path, band: u32, expect: &BTreeMap<String, V
         for sub in rd.flatten() {
             for f in std::fs::read_dir(sub.path()).unwrap().flatten() {
                 let name = f.file_name().to_string_lossy().to_string();
+                if f.path().is_dir() {
+                    bad.push(("format:block-undecodable".into(), json!({"block": name, "is_a_directory": true})));
+                    continue;
+                }
                 let raw = std::fs::read(f.path()).unwrap();
                 if raw.is_empty() {
                     continue; // zero-length leftover of a killed or failed write: never referenced (checked below)
